@@ -181,6 +181,10 @@ class SysSim(Engine):
         if rng.chance(0.4) and world["flows"]:
             f = rng.choice(world["flows"])
             names.append({"flow": world["flows"].index(f)} if rng.chance(0.5) else {"process": rng.choice([f["from"], f["to"]])})
+            # a process whose name is part of another process's name: exceptions are exact names, not substrings
+            short = [i for i, p in enumerate(world["processes"]) if any(p != q and p in q for q in world["processes"])]
+            if short and rng.chance(0.6):
+                names = [{"process": rng.choice(short)}]
         return {"op": "check", "what": "flows", "raise": rng.chance(0.5), "exceptions": names, "verbose": rng.chance(0.3)}
 
     # ---- C19 workload
@@ -756,7 +760,13 @@ class SysSim(Engine):
             for r, a in [("flow", sys_.flows[n]) for n in st.flow_names] + \
                         [(r, getattr(sys_.stocks[s["name"]], r)) for s in world["stocks"] for r in ("stock", "inflow", "outflow")]:
                 size = a.values.size
-                a.values[...] = (5000.25 + 1000 * k + 0.5 * rs.permutation(size)).reshape(a.values.shape)
+                new = (5000.25 + 1000 * k + 0.5 * rs.permutation(size)).reshape(a.values.shape)
+                if a.values.ndim >= 2 and (op["vseed"] + k) % 3 == 0:
+                    # the model stored a Fortran-ordered / transposed result through the public setter
+                    a.set_values(np.asfortranarray(new))
+                    self._probe(st, "exported_array_not_c_contiguous")
+                else:
+                    a.values[...] = new
                 k += 1
             return
         before = self._snapshot(sys_)
@@ -827,6 +837,8 @@ class SysSim(Engine):
             if kind == "pickle":
                 os.makedirs(st.tmp, exist_ok=True)
                 target = os.path.join(st.tmp, f"export{n}.pickle")
+                if op.get("dir") == "existing":
+                    target = f"export_bare{n}.pickle"  # a bare file name, written into the current directory
         counter = {"open": 0}
         real_open = open
 
@@ -861,7 +873,7 @@ class SysSim(Engine):
 
         def sim_open(file, mode="r", *a, **k):
             path_ = os.fspath(file) if isinstance(file, (str, bytes, os.PathLike)) else None
-            mine = path_ is not None and str(path_).startswith(st.tmp) and any(c in mode for c in "wax")
+            mine = path_ is not None and (str(path_).startswith(st.tmp) or not os.path.isabs(str(path_))) and any(c in mode for c in "wax")
             if mine:
                 counter["open"] += 1
                 if fault and fault["kind"] == "open_fail" and counter["open"] == fault["nth"]:
@@ -903,7 +915,9 @@ class SysSim(Engine):
 
         crash = None
         result = None
+        cwd = os.getcwd()
         try:
+            os.chdir(st.tmp)
             pic.open = sim_open
             dw.open = sim_open
             dw.os = OsProxy()
@@ -925,6 +939,9 @@ class SysSim(Engine):
             if "open" in dw.__dict__:
                 del dw.open
             dw.os = os
+            os.chdir(cwd)
+        if not os.path.isabs(target):
+            target = os.path.join(st.tmp, target)
         return fired, out, result, target
 
     def _judge_export(self, st, op, result, target, tags):
